@@ -23,6 +23,8 @@ def nontrivial(c):
 
 def _mk(rng, n, mode, val, i):
     kind = 'grid' if (i % 3) else 'cases'
+    if kind == 'cases' and i % 2 == 0 and n >= 2:
+        kind = 'casesx'                       # case list crossed with a sub-grid: sow_cases(..., combos=...)
     c = {'n': n, 'kind': kind, 'shuffle': rng.choice([0, 0, 1, 7, 42]) if kind == 'grid' else rng.choice([0, 0, 1, 5]),
          'farmer': (i % 5 == 0), 'seedvals': rng.randrange(10 ** 6)}
     if mode == 'bs': c['bs'] = val
@@ -30,6 +32,9 @@ def _mk(rng, n, mode, val, i):
     c['via'] = rng.choice(['ctor', 'sow'])
     if kind == 'grid':
         c['shape'] = list(common.factor_shape(n, rng))
+    if kind == 'casesx':
+        divs = [m for m in range(2, n + 1) if n % m == 0]
+        c['sub'] = rng.choice(divs)           # n = (n / sub) cases x sub combinations
     return c
 
 
@@ -74,8 +79,13 @@ def _inputs(c):
         return dict(combos=combos, cases=None, fn_args=None, consts=consts, res=res, sow_consts=sow_consts)
     names = ['y', 'x']
     pool = list(itertools.product(range(-3, 40), range(0, 12)))
-    cs = rng.sample(pool, c['n'])
-    return dict(combos=None, cases=[dict(zip(names, v)) for v in cs], fn_args=names, consts=consts, res=res, sow_consts=sow_consts)
+    ncases = c['n'] // c['sub'] if c['kind'] == 'casesx' else c['n']
+    cs = rng.sample(pool, ncases)
+    sub = None
+    if c['kind'] == 'casesx':
+        shape = list(common.factor_shape(c['sub'], rng))
+        sub = tuple((a, common.make_values(rng, k)) for a, k in zip(['b', 'a', 'c', 'd', 'e', 'g', 'h'], shape))   # parsed form, given order
+    return dict(combos=sub, cases=[dict(zip(names, v)) for v in cs], fn_args=names, consts=consts, res=res, sow_consts=sow_consts)
 
 
 def _rec(**kw):
@@ -106,7 +116,8 @@ def run_real(c, ctx):
                     crop.sow_combos(inp['combos'], constants=inp['sow_consts'] or None, shuffle=(c['shuffle'] or False), verbosity=0, **skw)
                 else:
                     if c['shuffle']: crop.shuffle = c['shuffle']
-                    crop.sow_cases(inp['fn_args'], inp['cases'], constants=inp['sow_consts'] or None, verbosity=0, **skw)
+                    xkw = {'combos': inp['combos']} if c['kind'] == 'casesx' else {}
+                    crop.sow_cases(inp['fn_args'], inp['cases'], constants=inp['sow_consts'] or None, verbosity=0, **skw, **xkw)
         except Exception as e:
             return {'err': type(e).__name__}
         files = glob.glob(os.path.join(crop.location, 'batches', 'xyz-batch-*.jbdmp'))
@@ -127,11 +138,15 @@ def run_real(c, ctx):
             xyz.combo_runner(recf, inp['combos'], constants={**inp['res'], **inp['consts'], **inp['sow_consts']}, verbosity=0)
         else:
             xyz.case_runner(recf, inp['fn_args'], [tuple(cs[a] for a in inp['fn_args']) for cs in inp['cases']],
-                            constants={**inp['res'], **inp['consts'], **inp['sow_consts']}, verbosity=0)
+                            constants={**inp['res'], **inp['consts'], **inp['sow_consts']}, verbosity=0,
+                            **({'combos': inp['combos']} if c['kind'] == 'casesx' else {}))
         # index of each setting in sow order (combos sorted by name, product order; cases in given order)
         if c['kind'] == 'grid':
             names = sorted(inp['combos'])
             enum = [dict(zip(names, p)) for p in itertools.product(*(inp['combos'][a] for a in names))]
+        elif c['kind'] == 'casesx':
+            subn = [a for a, _ in inp['combos']]
+            enum = [{**cs, **dict(zip(subn, p))} for cs in inp['cases'] for p in itertools.product(*(v for _, v in inp['combos']))]
         else:
             enum = [dict(cs) for cs in inp['cases']]
         extra = {**inp['res'], **inp['consts'], **inp['sow_consts']}
